@@ -84,6 +84,8 @@ def apply1 (cap : Nat) (op : Op) (l : List Nat) : List Nat × Out :=
   | .insertA _ pos i => withElem l i fun x => (insertAt l pos [x], .it pos)
   | .insertFillA pos n i => withElem l i fun x => (insertAt l pos (List.replicate n x), .it pos)
   | .resizeValA n i => withElem l i fun x => (resize l n x, .unit)
+  | .tryPushA _ i => withElem l i fun x => if l.length = cap then (l, .ptr none) else (l ++ [x], .ptr (some x))
+  | .uncheckedA _ i => withElem l i fun x => (l ++ [x], .ref x)
   | _ => (l, .unit)
 
 /-- operations whose result does not depend on the old value of the object -/
